@@ -611,6 +611,21 @@ def r7_r8(ctx):
             guards = [(vf.expr(f, g), t, br) for g, t, br in es.guards_of(f, c)]
             cond = guards[-1][0] if guards else None
             verdict, why = _discharge(pdb, f, c, cond)
+            if cond is None:
+                # assert(0) behind the default arm of a switch over an argument: 'the argument is one of the case constants'
+                for b in f.blocks:
+                    t = b.term
+                    if t.op == "switch" and vf.expr(f, t["cond"])[0] == "arg" and f.bdom(t["default"], c.block.id) and \
+                            all(pb == b.id or f.bdom(t["default"], pb) for pb in f.blocks[t["default"]].preds) and \
+                            all(dst != t["default"] for kk, dst in t["cases"]):
+                        k = vf.expr(f, t["cond"])[1]
+                        allowed = {kk for kk, dst in t["cases"]}
+                        vals = _arg_values(pdb, f, k)
+                        if vals is not None and vals <= allowed:
+                            verdict, why = "discharged", "argument %d is %s at every call site (the assertion sits behind the default arm of a switch with cases %s)" % (
+                                k, sorted(vals), sorted(allowed))
+                        else:
+                            verdict, why = "undecided", "argument %d = %s at the call sites, switch cases %s" % (k, vals, sorted(allowed))
             inst = "%s@%d" % (f.name, [x.id for x in f.calls("__assert_fail")].index(c.id) + 1)
             if verdict == "discharged":
                 ctx.ok("C04.R8", "assert:%s" % inst, c.loc(), why)
